@@ -31,6 +31,9 @@ import (
 	"testing/synctest"
 	"time"
 
+	"context"
+
+	"github.com/anyproto/any-sync/commonspace"
 	"github.com/anyproto/any-sync/commonspace/object/acl/aclrecordproto"
 	"github.com/anyproto/any-sync/commonspace/object/tree/objecttree"
 	"github.com/anyproto/any-sync/commonspace/object/tree/treechangeproto"
@@ -491,8 +494,43 @@ func (e *evaluator) reportInformational() {
 
 func validateStorage(p parts) (err error, panicked bool, what string) {
 	panicked, what = vk.Recover(func() { err = spacepayloads.ValidateSpaceStorageCreatePayload(p.payload()) })
+	if !panicked {
+		// the same payload through the service's entry point for created / pushed / pulled payloads: same verdict,
+		// and a refused payload must not have reached the storage provider
+		prov := &recProvider{}
+		var serr error
+		if pp, pw := vk.Recover(func() { _, serr = commonspace.VerifCreateSpaceStorage(context.Background(), prov, p.payload()) }); pp {
+			return err, true, "spaceService.createSpaceStorage: " + pw
+		}
+		switch {
+		case (serr == nil) != (err == nil):
+			svcVerdictDiffers.Add(1)
+		case err != nil && prov.created > 0:
+			svcStoredRefused.Add(1)
+		}
+		svcCalls.Add(1)
+	}
 	return
 }
+
+// svcStoredRefused counts refused payloads that nevertheless reached the storage provider (reported once per run).
+var svcStoredRefused, svcVerdictDiffers, svcCalls atomic.Int64
+
+// recProvider records what reaches the storage provider.
+type recProvider struct {
+	spacestorage.SpaceStorageProvider
+	created int
+}
+
+func (r *recProvider) CreateSpaceStorage(ctx context.Context, payload spacestorage.SpaceStorageCreatePayload) (spacestorage.SpaceStorage, error) {
+	r.created++
+	return closeOnly{}, nil
+}
+
+// closeOnly is the storage handed back by recProvider: callers of createSpaceStorage may only close it.
+type closeOnly struct{ spacestorage.SpaceStorage }
+
+func (closeOnly) Close(context.Context) error { return nil }
 
 func validateHeader(p parts, identity crypto.PubKey) (err error, panicked bool, what string) {
 	panicked, what = vk.Recover(func() {
@@ -669,8 +707,16 @@ func TestCheck(t *testing.T) {
 
 func body(c *vk.Ctx) {
 	if c.Replay != "" {
-		replay(c)
-		return
+		var rf struct {
+			Case replayCase `json:"case"`
+		}
+		if err := vk.ReadJSON(c.Replay, &rf); err == nil && rf.Case.Family == "service" {
+			// a statement about all payloads of a run: the run is repeated
+			c.Replay = ""
+		} else {
+			replay(c)
+			return
+		}
 	}
 	all := !c.Quick()
 	c.Bound("byte_values_per_offset", vk.Pick(c, 6, 255))
@@ -791,6 +837,14 @@ func body(c *vk.Ctx) {
 	close(jobs)
 	wg.Wait()
 	e.reportInformational()
+	// the service's entry point for created / pushed / pulled payloads (every payload above also went through it)
+	c.Count("service_entry_point_calls", svcCalls.Load())
+	if n := svcVerdictDiffers.Load(); n > 0 {
+		c.Violation("service entry point: verdict differs from the validator", fmt.Sprintf("spaceService.createSpaceStorage and ValidateSpaceStorageCreatePayload disagreed on %d payloads", n), replayCase{Family: "service"})
+	}
+	if n := svcStoredRefused.Load(); n > 0 {
+		c.Violation("service entry point: refused payload reached the storage provider", fmt.Sprintf("%d payloads that spaceService.createSpaceStorage refused had already been handed to SpaceStorageProvider.CreateSpaceStorage (a refused space must not be stored under its id)", n), replayCase{Family: "service"})
+	}
 	if timedOut.Load() {
 		c.NotExhaustive("deadline reached before all mutants were evaluated")
 		return
